@@ -121,6 +121,16 @@ def rules(p):
     R.append(("marker.in_mutate", "TypeError|FunctionTypeError|DataTypeError|ValueError", lambda x: x >> p.mutate(y=C.a.descending())))
     R.append(("marker.in_filter", "TypeError|FunctionTypeError|DataTypeError|ValueError", lambda x: x >> p.filter(C.p.nulls_last())))
     R.append(("marker.nested", "TypeError|FunctionTypeError|DataTypeError|ValueError", lambda x: x >> p.mutate(y=C.a.nulls_first() + 1)))
+    # more syntactic positions of a marker that is not at the top of an arrange key (F68; reported by a round-5 sub-agent):
+    # below a cast, not at the top of an `arrange` / `arrange=` key, in a case condition, in an aggregate's argument
+    MK = "TypeError|FunctionTypeError|DataTypeError|ValueError"
+    R.append(("marker.under_cast", MK, lambda x: x >> p.mutate(y=C.a.descending().cast(p.Float64()))))
+    R.append(("marker.arrange_not_top", MK, lambda x: x >> p.arrange(C.a.descending() + 1)))
+    R.append(("marker.arrange_under_cast", MK, lambda x: x >> p.arrange(C.a.descending().cast(p.Float64()))))
+    R.append(("marker.arrange_kwarg_not_top", MK, lambda x: x >> p.mutate(y=C.b.shift(1, arrange=[C.a.descending() + 1]))))
+    R.append(("marker.in_case_condition", MK, lambda x: x >> p.mutate(y=p.when(C.a.descending() > 1).then(1).otherwise(0))))
+    R.append(("marker.in_agg_argument", MK, lambda x: x >> p.group_by(C.g) >> p.summarize(y=C.a.nulls_last().max())))
+    R.append(("marker.in_filter_nested", MK, lambda x: x >> p.filter(C.a.nulls_last() > 1)))
     return R
 
 
@@ -133,6 +143,8 @@ def two_table_rules(p):
     R.append(("join.same_origin_after_join", "ValueError", lambda t, u, w: t >> p.inner_join(u >> p.filter(u.x > 0), t.a == u.k) >> p.select(t.a) >> p.left_join(u, t.a == u.k)))
     R.append(("join.different_backend", "TypeError", lambda t, u, w: t >> p.inner_join(w, t.a == w.k)))
     R.append(("join.nonbool_on", "DataTypeError", lambda t, u, w: t >> p.inner_join(u, t.a + u.k)))
+    R.append(("join.marker_in_on", "TypeError|DataTypeError|ValueError", lambda t, u, w: t >> p.inner_join(u, t.a.descending() == u.k)))
+    R.append(("join.marker_top_of_on", "TypeError|DataTypeError|ValueError", lambda t, u, w: t >> p.inner_join(u, (t.a == u.k).descending())))
     R.append(("join.window_in_on", "FunctionTypeError", lambda t, u, w: t >> p.inner_join(u, t.a == u.x.shift(1, arrange=[u.k]))))
     R.append(("join.agg_in_on", "FunctionTypeError", lambda t, u, w: t >> p.inner_join(u, t.a == u.x.max())))
     R.append(("join.type_error_in_on", "DataTypeError", lambda t, u, w: t >> p.inner_join(u, t.s == u.k)))
